@@ -415,6 +415,8 @@ class Library:
             for p in prev:
                 it.ctx.assume(t != p)
             prev.append(t)
+            for c in it.str_labels.values():      # a uuid-suffixed label is none of the program's string constants
+                it.ctx.assume(t != c)
             return Sym(t)
         if any(isinstance(p, DigitStr) for p in parts) and all(isinstance(p, (str, DigitStr)) for p in parts):
             return NumberedLabel(tuple(parts)).to_sym(it)
@@ -446,6 +448,14 @@ class Library:
         it = self.it
         conc_b = isinstance(b, int) and not isinstance(b, bool)
         conc_a = isinstance(a, int) and not isinstance(a, bool)
+        if T in (ast.RShift, ast.LShift) and not conc_b:
+            # small symbolic shift amounts (bit positions inside a byte): enumerate them
+            if not it.ctx.feasible(z3.Or(y < 0, y > 8)):
+                for k in range(0, 9):
+                    if it.ctx.feasible(y == k) and it.ctx.choose(y == k):
+                        return Sym(x / (2 ** k)) if T is ast.RShift else Sym(x * (2 ** k))
+                from .values import Infeasible
+                raise Infeasible()
         if T is ast.RShift:
             if conc_b:
                 if b < 0:
@@ -476,6 +486,17 @@ class Library:
                     return Sym(p * ((other / p) % 2))
             raise Unsupported('general symbolic &')
         if T is ast.BitOr:
+            # x | (b * 2^t) with 0 <= x < 2^t, b in {0,1}: bits are disjoint, so | is + (background lemma);
+            # the side condition becomes an obligation of the function under verification
+            for (p_, other) in ((y, x), (x, y)):
+                sc = _pow2_scaled(p_)
+                if sc is not None:
+                    it.ctx.check('bitor-disjoint-bits', z3.And(other >= 0, other < sc), {'witness': 'bitor'})
+                    return Sym(other + p_)
+            w = getattr(it, 'bv_width', None)
+            if w:
+                it.ctx.check('bitor-operands-fit-width', z3.And(x >= 0, x < 2 ** w, y >= 0, y < 2 ** w))
+                return Sym(z3.BV2Int(z3.Int2BV(x, w) | z3.Int2BV(y, w)))
             raise Unsupported('general symbolic |')
         if T is ast.BitXor:
             raise Unsupported('general symbolic ^')
@@ -516,6 +537,14 @@ class Library:
                 return N(pop)
             if name == 'reverse':
                 return N(lambda: L.reverse())
+            if name == 'popleft':       # collections.deque
+                def popleft():
+                    if not L:
+                        it.raise_('IndexError', 'pop from an empty deque')
+                    return L.pop(0)
+                return N(popleft)
+            if name == 'appendleft':
+                return N(lambda x: L.insert(0, x))
             if name == 'copy':
                 return N(lambda: VList(L))
             if name == 'clear':
@@ -935,8 +964,77 @@ class NumberedLabel:
         return Sym(f(it.int_term(idx[0])))
 
 
+class SortedListModel:
+    """sortedcontainers.SortedList of tuples whose leading components are concrete ints and whose other components
+    are labels: kept ascending; ties between labels are decided by the (uninterpreted, total) label order, i.e. the
+    execution forks on the comparison — every order python's string comparison could produce is explored."""
+
+    def __init__(self, it, items=()):
+        self.items = []
+        for x in items:
+            self.add(it, x)
+
+    def _lt(self, it, a, b):
+        """a < b for tuples (python semantics: first differing component decides)"""
+        for x, y in zip(a, b):
+            if isinstance(x, int) and isinstance(y, int):
+                if x != y:
+                    return x < y
+                continue
+            e = it.eq(x, y)
+            if e is True:
+                continue
+            if e is not False and it.ctx.choose(it.as_bool_term(e)):
+                continue
+            if not getattr(it.ctx, 'label_order', False):
+                for ax in label_order_axioms():
+                    it.ctx.assume(ax)
+                it.ctx.label_order = True
+            return it.ctx.choose(LabelLE(it.label_term(x), it.label_term(y)))
+        return len(a) < len(b)
+
+    def add(self, it, x):
+        x = tuple(it.iterate(x)) if not isinstance(x, tuple) else x
+        i = 0
+        while i < len(self.items) and not self._lt(it, x, self.items[i]):
+            i += 1
+        self.items.insert(i, x)
+
+    def discard(self, it, x):
+        for i, y in enumerate(self.items):
+            e = it.eq(x, y)
+            if e is True or (e is not False and it.ctx.choose(it.as_bool_term(e))):
+                del self.items[i]
+                return
+
+
 def _sorted_list(it, x):
-    raise Unsupported('SortedList')
+    from .interp import Model
+
+    class SL(Model):
+        def __init__(self_, items):
+            self_.sl = SortedListModel(it, items)
+
+        def m_len(self_, it_):
+            return len(self_.sl.items)
+
+        def m_getitem(self_, it_, k):
+            if not isinstance(k, int):
+                raise Unsupported('SortedList index')
+            if k >= len(self_.sl.items) or k < -len(self_.sl.items):
+                it_.raise_('IndexError', 'list index out of range')
+            return self_.sl.items[k]
+
+        def m_iter(self_, it_):
+            yield from list(self_.sl.items)
+
+        def m_getattr(self_, it_, name):
+            if name == 'add':
+                return Native('SortedList.add', lambda v: self_.sl.add(it_, v))
+            if name == 'discard':
+                return Native('SortedList.discard', lambda v: self_.sl.discard(it_, v))
+            raise Unsupported('SortedList.' + name)
+    return SL(list(it.iterate(x)))
 
 
 def _need_int(x):
@@ -967,6 +1065,36 @@ def _count(it, items, x):
     if terms:
         return Sym(z3.Sum(terms) + acc)
     return acc
+
+
+def _pow2_scaled(t):
+    """if t is  b * 2^k  (k concrete or pow2(e)) with b an If(cond,1,0), return the scale 2^k, else None"""
+    t = z3.simplify(t)
+    try:
+        if z3.is_app(t) and t.decl().kind() == z3.Z3_OP_MUL and t.num_args() == 2:
+            a, b = t.arg(0), t.arg(1)
+            for c, v in ((a, b), (b, a)):
+                if _is_01(v) and (z3.is_int_value(c) and c.as_long() > 0 and (c.as_long() & (c.as_long() - 1)) == 0 or _is_pow2_term(c)):
+                    return c
+        if z3.is_app(t) and t.decl().kind() == z3.Z3_OP_ITE:
+            a, b = t.arg(1), t.arg(2)
+            if z3.is_int_value(b) and b.as_long() == 0 and z3.is_int_value(a) and a.as_long() > 0 and (a.as_long() & (a.as_long() - 1)) == 0:
+                return a
+            if z3.is_int_value(a) and a.as_long() == 0 and z3.is_int_value(b) and b.as_long() > 0 and (b.as_long() & (b.as_long() - 1)) == 0:
+                return b
+        if _is_01(t):
+            return z3.IntVal(1)
+    except Exception:
+        return None
+    return None
+
+
+def _is_01(v):
+    v = z3.simplify(v)
+    if z3.is_app(v) and v.decl().kind() == z3.Z3_OP_ITE:
+        a, b = v.arg(1), v.arg(2)
+        return z3.is_int_value(a) and z3.is_int_value(b) and {a.as_long(), b.as_long()} <= {0, 1}
+    return False
 
 
 def _is_pow2_term(t):
